@@ -636,8 +636,37 @@ def register2(M):
     E['numpy.finfo'] = lambda it, a, k, n: FInfo()
     E['numpy.spacing'] = lambda it, a, k, n: (_ for _ in ()).throw(AnalysisError('np.spacing (float spacing) is outside the exact-arithmetic model', n))
 
-    E['operator.attrgetter'] = lambda it, a, k, n: PyCallable(lambda it2, a2, k2, n2, _name=a[0]: it2.getattr(a2[0], _name, n2), 'attrgetter')
-    E['operator.itemgetter'] = lambda it, a, k, n: PyCallable(lambda it2, a2, k2, n2, _key=a[0]: it2.models.getitem(it2, a2[0], _key, n2), 'itemgetter')
+    def _attrgetter(it, a, k, n):
+        # stdlib fact: dotted names are followed attribute by attribute; several names give a tuple
+        if not a or not all(isinstance(x, str) for x in a):
+            raise AbsRaise(ExcVal('TypeError', ('attribute name must be a string',)), n)
+
+        def one(it2, obj, path, n2):
+            for part in path.split('.'):
+                obj = it2.getattr(obj, part, n2)
+            return obj
+        if len(a) == 1:
+            return PyCallable(lambda it2, a2, k2, n2: one(it2, a2[0], a[0], n2), 'attrgetter')
+        return PyCallable(lambda it2, a2, k2, n2: tuple(one(it2, a2[0], p, n2) for p in a), 'attrgetter')
+    E['operator.attrgetter'] = _attrgetter
+
+    def _itemgetter(it, a, k, n):
+        if len(a) == 1:
+            return PyCallable(lambda it2, a2, k2, n2: it2.models.getitem(it2, a2[0], a[0], n2), 'itemgetter')
+        return PyCallable(lambda it2, a2, k2, n2: tuple(it2.models.getitem(it2, a2[0], key, n2) for key in a), 'itemgetter')
+    E['operator.itemgetter'] = _itemgetter
+
+    def _property_call(it, a, k, n):
+        # property(fget[, fset[, fdel[, doc]]]) called as a function: the getter becomes the property object
+        from .interp import FuncVal
+        fget = a[0] if a else k.get('fget')
+        fset = a[1] if len(a) > 1 else k.get('fset')
+        if not isinstance(fget, FuncVal) or (fset is not None and not isinstance(fset, FuncVal)) or len(a) > 2 and a[2] is not None or k.get('fdel') is not None:
+            raise AnalysisError('property(...) form not modelled', n)
+        fget.is_property = True
+        fget.setter = fset
+        return fget
+    E['builtins.property'] = _property_call
 
     def groupby(interp, args, kw, node):
         """itertools.groupby: consecutive runs of equal keys"""
